@@ -218,6 +218,15 @@ class TransportDescriptorParser:
             if (attr not in positional_names) and (attr not in self._keywords):
                 parameters.pop(attr)
 
+        # Check the type of the remaining default parameters; the constructors rely on it.
+        expected_types = {name: ty for (name, (ty, _)) in self._positionals}
+        expected_types.update({name: ty for (name, (ty, _)) in self._keywords.items()})
+        for attr, value in parameters.items():
+            ty = expected_types[attr]
+            if not isinstance(value, ty) and not (ty is float and isinstance(value, int)):
+                raise QMI_TransportDescriptorException(
+                    "Default parameter {} expected type {} but got {!r}".format(attr, ty, value))
+
         interface = self._parse_interface(transport_descriptor)
 
         if self.interface != interface.lower():
